@@ -53,6 +53,8 @@ def build_rs(packages=("vf-driver", "vf-inv", "vf-bf")):
     key = "rs:" + ",".join(packages)
     if _done.get(key):
         return
+    from . import gen_methods
+    gen_methods.generate()
     args = ["build", "--release", "--offline"]
     for p in packages:
         args += ["-p", p]
